@@ -345,8 +345,8 @@ type UserDelegate struct {
 	// NodeMeta parks on MetaGate (if set) after closing MetaEntered
 	MetaGate    chan struct{}
 	MetaEntered chan struct{} // if set, NotifyMsg blocks until it can receive
-	FillExact  bool          // hand out as much as fits
-	OnMsg      func([]byte)
+	FillExact   bool          // hand out as much as fits
+	OnMsg       func([]byte)
 }
 
 type HandOut struct {
